@@ -26,6 +26,10 @@ CORPUS = [
     ("never-slice", ["C03"], [["stm", ["loop", ["block", ["set", "x", "break"], E(["slice", V("x"), I(0), None, None])]]], E(I(1))]),
     ("never-all", ["C03"], [["stm", ["loop", ["block", ["set", "x", "break"], E(["post", V("x"), "$&&"])]]], E(I(1))]),
     ("never-tfilter", ["C03"], [["stm", ["loop", ["block", ["set", "x", "break"], E(["tfilter", V("x"), "int"])]]], E(I(1))]),
+    ("iter-without-element-collect", ["C03"], [["fndecl", "f", [], "never", [ret(["call", V("f")])]], ["set", "x", ["expr", ["post", V("f"), "$]"]]], E(I(1))]),
+    ("iter-without-element-sum", ["C03"], [["fndecl", "f", [], "never", [ret(["call", V("f")])]], ["set", "x", ["expr", ["post", V("f"), "$+"]]], E(I(1))]),
+    ("iter-without-element-product", ["C03"], [["fndecl", "f", [], ["tup", "never", "int"], [ret(["call", V("f")])]], ["set", "x", ["expr", ["post", V("f"), "$*"]]], E(I(1))]),
+    ("iter-without-element-all", ["C03"], [["fndecl", "f", [], "never", [ret(["call", V("f")])]], ["fndecl", "g", [], "bool", [ret(["post", V("f"), "$&&"])]], E(I(1))]),
     ("mut-union-deref", ["C03", "C05"], [
         ["fndecl", "f", [["m", ["multi", ["mut", "int"], ["mut", "float"]]]], ["multi", "int", "float"], [ret(["pre", "deref", V("m")])]],
         E(["call", V("f"), ["mut", None, I(1)]])]),
